@@ -123,6 +123,8 @@ class Index:
             n['_owner'] = pdecl
             self.lambdas.append(n)
         np = nid if kind in DECL_KINDS else pdecl
+        if n.get('inner') and any(isinstance(c, dict) and c.get('kind', '').endswith('Attr') for c in n['inner']):
+            n['inner'] = [c for c in n['inner'] if not (isinstance(c, dict) and c.get('kind', '').endswith('Attr'))]
         for c in n.get('inner', []) or []:
             self._walk(c, np)
 
@@ -189,12 +191,26 @@ class Unit:
     # ------------------------------------------------------------------ names of declarations
     def targs_of(self, n, ctx):
         out = []
+        # clang dumps a 'true' bool template argument as the 1-bit signed value -1
+        bool_pos = set()
+        p = self.ix.parent.get(n.get('id'))
+        pn = self.ix.get(p) if p else None
+        if pn is not None and pn['kind'] in ('ClassTemplateDecl', 'FunctionTemplateDecl'):
+            k = 0
+            for c in pn.get('inner', []) or []:
+                if c.get('kind') in ('TemplateTypeParmDecl', 'NonTypeTemplateParmDecl', 'TemplateTemplateParmDecl'):
+                    if c.get('kind') == 'NonTypeTemplateParmDecl' and (c.get('type', {}).get('qualType') in ('bool', 'const bool')):
+                        bool_pos.add(k)
+                    k += 1
 
         def one(a):
             if 'type' in a:
                 out.append(self.resolve(T.parse(a['type']['qualType']), ctx))
             elif 'value' in a:
-                out.append(('v', int(a['value'])))
+                v = int(a['value'])
+                if len(out) in bool_pos and v == -1:
+                    v = 1
+                out.append(('v', v))
             elif a.get('inner') and all(c.get('kind') == 'TemplateArgument' for c in a['inner']):
                 for c in a['inner']:
                     one(c)
@@ -532,6 +548,9 @@ class Unit:
             return x  # pointer type
         if name == 'std::reference_wrapper':
             return ('p', a0[0])
+        if name == 'std::unique_ptr':
+            x = T.strip_const(a0[0])
+            return ('p', x[1]) if x[0] == 'a' else ('p', x)
         if name == 'std::vector' and a0 is not None and len(a0) > 1:
             return ('n', [comps[0], ('vector', [a0[0]])])
         if name in ('std::tuple_element::type',):
@@ -1811,16 +1830,17 @@ class Emitter(Unit):
         el = self.unconst(ty[1])
         if e.get('isArray'):
             size = e['inner'][0]
-            if len(e['inner']) > 1 and e['inner'][1].get('kind') not in (None, 'ImplicitValueInitExpr'):
-                k1 = e['inner'][1].get('kind')
-                if k1 == 'CXXConstructExpr' and not (e['inner'][1].get('inner')):
+            valueinit = len(e['inner']) > 1 and e['inner'][1].get('kind') is not None
+            if el[0] == 'n':
+                q = '::'.join(c[0] for c in el[1])
+                if q in ('std::array', 'std::pair'):
                     pass
                 else:
-                    raise Unsupported('array new with initialiser')
-            if el[0] == 'n':
-                rec = self.find_record(el[1]) if el[1][0][0] != 'std' else None
-                if rec is None or not self.all_trivial_members(rec):
-                    raise Unsupported('array new of non-trivial type ' + T.show(el))
+                    rec = self.find_record(el[1]) if el[1][0][0] != 'std' else None
+                    if rec is None or not self.all_trivial_members(rec):
+                        raise Unsupported('array new of non-trivial type ' + T.show(el))
+            if valueinit:
+                return '((%s)calloc((unsigned long)%s, sizeof(%s)))' % (self.ctype(ty), self.expr(size, fc), self.ctype(el))
             return '((%s)malloc(((unsigned long)%s) * sizeof(%s)))' % (self.ctype(ty), self.expr(size, fc), self.ctype(el))
         raise Unsupported('scalar new expression')
 
@@ -2112,6 +2132,11 @@ class Emitter(Unit):
                 return self.expr(args[0], fc)
             if q == 'std::pair':
                 if len(args) == 1:
+                    at = T.strip_ref(self.ntype(args[0], fc.fid))
+                    if at != ty and at[0] == 'n' and '::'.join(c[0] for c in at[1]) == 'std::pair':
+                        # converting constructor pair<A,B> -> pair<A',B'> (references / reference_wrapper are both pointers)
+                        t = self.new_temp(fc, at)
+                        return '(%s = %s, (struct %s){%s.first, %s.second})' % (t, self.expr(args[0], fc), cn, t, t)
                     return self.expr(args[0], fc)
                 return '((struct %s){%s, %s})' % (cn, self.expr(args[0], fc), self.expr(args[1], fc))
             if cn == 'std_empty':
@@ -2124,6 +2149,12 @@ class Emitter(Unit):
                 return self.expr(args[0], fc)
             if a0t[0] == 'n' and '::'.join(c[0] for c in a0t[1]) == 'std::nullopt_t':
                 return '((struct %s){0})' % cn
+            vt = T.strip_const(ty[1][-1][1][0])
+            if vt != a0t and vt[0] == 'n' and a0t[0] == 'n' and '::'.join(c[0] for c in vt[1]) == 'std::pair' and '::'.join(c[0] for c in a0t[1]) == 'std::pair':
+                t = self.new_temp(fc, a0t)
+                pcn = self.record_cname(vt)
+                self.need_record(vt, pcn)
+                return '(%s = %s, (struct %s){1, (struct %s){%s.first, %s.second}})' % (t, self.expr(args[0], fc), cn, pcn, t, t)
             return '((struct %s){1, %s})' % (cn, self.expr(args[0], fc))
         if q == 'std::vector':
             if len(args) == 0:
@@ -2379,8 +2410,8 @@ class Emitter(Unit):
         name = q.split('::')[-1]
         rty = None
         if name in ('move', 'forward', 'as_const', 'addressof', 'ref', 'cref'):
-            if name == 'addressof':
-                return self.addr(args[0], fc)
+            if name in ('addressof', 'ref', 'cref'):
+                return self.addr(args[0], fc)   # reference_wrapper is modelled as a pointer
             return self.expr(args[0], fc)
         if name in ('abs', 'labs', 'llabs', 'fabs'):
             t = T.strip_const(self.ntype(e, fc.fid))
@@ -2411,6 +2442,9 @@ class Emitter(Unit):
             t0 = T.strip_ref(self.ntype(args[0], fc.fid))
             if t0[0] == 'p':
                 return '(%s %s %s)' % (self.expr(args[0], fc), name[8:], self.expr(args[1], fc))
+        if name in ('Sqrt', 'sqrtf') or (name == 'sqrt' and self.cfg.get('sqrt_uninterpreted')):
+            t = T.strip_const(self.ntype(e, fc.fid))
+            return '__verif_sqrt_%s(%s)' % (t[1], self.expr(args[0], fc))
         if name in ('memset', 'memcpy', 'sqrt', 'floor', 'ceil', 'pow', 'log2', 'exp', 'log'):
             return '%s(%s)' % ({'memset': '__verif_memset', 'memcpy': '__verif_memcpy'}.get(name, name), ', '.join(self.expr(a, fc) for a in args))
         if name in ('sort', 'lower_bound', 'upper_bound', 'fill', 'copy'):
